@@ -167,6 +167,51 @@ def lex_bounded(pid, cfg, results, tier, seed):
 
 
 # ------------------------------------------------------------------------------------------------
+# Witness replays through the real pipeline (NOT proof): every entry of known_findings.json for the property whose
+# witness is a whole program.  An OPEN finding must still reproduce (-> KNOWN-FINDING line; if it no longer does, the
+# check is undecided until the entry is turned into `fixed`).  A FIXED entry suppresses nothing: its witness is
+# replayed as a regression case and a witness that fails again is reported as a violation with the input attached.
+def _pipeline_verdict(txt):
+    first = ((txt or "").splitlines() or [""])[0].strip()
+    return first if first in ("OK", "ERR") else None
+
+
+def kf_pipeline(pid, cfg, results, tier, seed):
+    out = {"info": {"kind": "replay of recorded witnesses on the real pipeline (NOT proof)", "runs": []},
+           "violations": [], "undecided": [], "known": [], "cmds": [], "trusted": []}
+    ents = [e for e in _load_findings(pid) if (e.get("witness") or {}).get("kind") == "pipeline" and (e.get("witness") or {}).get("verdict")]
+    if not ents:
+        return out
+    ok, log = replay.build()
+    if not ok:
+        out["undecided"].append("replay binary unavailable: " + log[-400:])
+        return out
+    out["cmds"].append("vxreplay pipeline <witness> (mamba_to_python on the working tree)")
+    for ent in ents:
+        w = ent["witness"]
+        rc, txt = replay.run_case({"kind": "pipeline", "input": w["input"], "annotate": bool(w.get("annotate"))})
+        got = _pipeline_verdict(txt)
+        if got is None:
+            out["undecided"].append("witness of %s did not run: %s" % (ent["id"], (txt or "")[-200:]))
+            continue
+        # w["verdict"] is the verdict the PROPERTY demands (OK = accepted, ERR = rejected); optional w["contains"]
+        good = got == w["verdict"] and (not w.get("contains") or w["contains"] in (txt or ""))
+        out["info"]["runs"].append({"check": "witness", "id": ent["id"], "status": ent["status"], "demanded": w["verdict"], "got": got})
+        if ent["status"] == "finding":
+            if not good:
+                out["known"].append(ent)
+            else:
+                out["undecided"].append("known finding %s no longer reproduces on its witness: turn the entry into `fixed` (KNOWN-FINDING-RESOLVED)" % ent["id"])
+        elif not good:
+            out["violations"].append(({"unit": "WITNESS"}, {
+                "obligation": "WITNESS::%s::fixed_defect_stays_fixed" % ent["id"], "kind": "replay", "fn": "mamba_to_python",
+                "message": "the witness of the fixed defect %s fails again: the property demands %s, the pipeline says %s" % (ent["id"], w["verdict"], got),
+                "rendered": "input:\n%s\noutput:\n%s" % (w["input"], (txt or "")[:600]),
+                "case": {"kind": "pipeline", "input": w["input"], "annotate": bool(w.get("annotate")), "expected": w["verdict"]}}))
+    return out
+
+
+# ------------------------------------------------------------------------------------------------
 # C11: the flag may only be READ inside functions under contract (convert_def) or at the plumbing
 # sites that copy it from the command line into the generator state.  A new reader makes the check
 # undecided (never a silent pass, never an alarm).
